@@ -69,7 +69,7 @@ class ByteChanSpec(Spec):
         ],
     }
     assumptions = [
-        "streams declaring frame sizes > 64x64, depths > 4, > 16x16 slices, excursions > 2^20 or base-format-sized pictures are discarded as out of scope (counted)",
+        "streams declaring frame sizes > 64x64, depths > 4, > 16x16 slices, excursions > 2^40 or base-format-sized pictures are discarded as out of scope (counted)",
         "faults are persistent (at rest): every receiver sees the same faulted bytes",
     ]
     fault_kinds = F.ALL_KINDS
@@ -555,6 +555,13 @@ class C08(AcceptedSpec):
         if d.verdict != "parsed":
             return viol(exc_sig("C08/deserialiser-failed-on-accepted-stream", d.exc), "validator accepted the stream but the deserialiser raised:\n%s" % short_tb(d.exc))
         ctx = d.context
+        # 0. the deserialiser driven the way the viewer drives it (seek back
+        # and re-read every value) must read the same description
+        dv = R.run_deserialiser(data, reread=True)
+        if dv.verdict != "parsed":
+            return viol(exc_sig("C08/viewer-style-deserialiser-failed", dv.exc) if dv.exc is not None else "C08/viewer-style-deserialiser-failed", "the deserialiser, driven as the viewer drives it (seek back + re-read after each value), failed on an accepted stream:\n%s" % (short_tb(dv.exc) if dv.exc is not None else dv.verdict))
+        if dv.context != ctx:
+            return viol("C08/viewer-style-description-differs", "the deserialiser driven as the viewer drives it reads a different description than the plain deserialiser")
         # 1. data units
         units = []
         for seq in ctx["sequences"]:
